@@ -947,6 +947,13 @@ int32 parseServerHelloExtensions(ssl_t *ssl, int32 hsLen,
     c = *cp;
     end = c + len;
 
+    if (len == 0)
+    {
+        /* The ServerHello has no extension block at all. The rules for
+           extensions we require the server to send still apply. */
+        goto enforce_required;
+    }
+
     /* Check that we can parse the two length octets. */
     if (end - c < 2)
     {
@@ -990,6 +997,7 @@ int32 parseServerHelloExtensions(ssl_t *ssl, int32 hsLen,
         c += extLen;
     }
 
+enforce_required:
     /* Enforce the rules for extensions that require the server to send
         something back to us */
 
